@@ -1677,6 +1677,9 @@ public:
 template<template<typename,size_t...> class TensorType, typename T, size_t DIMS, size_t ... Rest>
 constexpr std::array<size_t,DIMS> TensorViewExpr<TensorType<T,Rest...>,DIMS>::products_;
 
+template<template<typename,size_t...> class TensorType, typename T, size_t DIMS, size_t ... Rest>
+constexpr std::array<size_t,DIMS> TensorConstViewExpr<TensorType<T,Rest...>,DIMS>::products_;
+
 
 } // end of namespace Fastor
 
